@@ -165,7 +165,7 @@ impl PhoneticSuggestion {
                 // Add the emoticon
                 // Sometimes the emoticon is captured as preceding meta characters and already included.
                 if term != string.preceding() {
-                    self.suggestions.push(Rank::last_ranked(term.to_owned(), 1));
+                    push_checked(&mut self.suggestions, Rank::last_ranked(term.to_owned(), 1));
                 }
                 self.suggestions.push(Rank::emoji(emoji.to_owned()));
                 // Mark that we have added the typed text already (as the emoticon).
@@ -187,8 +187,7 @@ impl PhoneticSuggestion {
         // Avoid including meta character suggestion twice, so check `term` is not equal to the
         // captured preceding characters
         if config.get_suggestion_include_english() && !typed_added && term != string.preceding() {
-            self.suggestions
-                .push(Rank::last_ranked(term.to_string(), 3));
+            push_checked(&mut self.suggestions, Rank::last_ranked(term.to_string(), 3));
         }
 
         // Sort the suggestions.
